@@ -237,6 +237,31 @@ def rule_relabel_map_self(ctx: Ctx) -> None:
                          construct="get_relabel_map: shortcut map is not the position pairing")
 
 
+def rule_relabel_map_direction(ctx: Ctx) -> None:
+    """relabel.map-direction: get_relabel_map(g1, g2) returns a map from the nodes of g1 to the nodes of g2; the matcher it delegates to
+    (GraphMatcher(a, b).mapping, nx.vf2pp_isomorphism(a, b), nx.vf2pp_all_isomorphisms) maps its FIRST graph onto its SECOND, so it must
+    be called with (g1, g2) in this order; swapped, the inverse permutation is returned (the same only for involutions)."""
+    repo = ctx.repo
+    m = repo.module(RELABEL)
+    fn = repo.anchor(RELABEL, "get_relabel_map")
+    ctx.touch(m, fn)
+    g1, g2 = func_params(fn)[:2]
+    cs = [c for c in calls_in(fn) if (call_attr(c) or call_name(c) or "").split(".")[-1] in ("GraphMatcher", "vf2pp_isomorphism", "vf2pp_all_isomorphisms", "DiGraphMatcher")]
+    if not cs:
+        raise AnalysisError("get_relabel_map: isomorphism matcher call not found")
+    for c in cs:
+        a = [norm(x) for x in c.args[:2]]
+        if a == [g1, g2]:
+            ctx.ok("relabel.map-direction", m, c, what="matcher called as (g1, g2): the mapping runs g1 -> g2")
+        elif a == [g2, g1]:
+            ctx.fail("relabel.map-direction", m, c,
+                     f"get_relabel_map calls `{short(c)}` with the two graphs swapped: the returned mapping runs from {g2} to {g1}, the inverse of the "
+                     f"relabelling the callers apply (the alternate-target solver reports a map under which its circuit does not generate the renamed "
+                     f"target, unless the relabelling is an involution)", func="get_relabel_map", construct="get_relabel_map: matcher arguments swapped")
+        else:
+            raise AnalysisError(f"get_relabel_map: matcher arguments `{a}` not recognised")
+
+
 def rule_relabel_form(ctx: Ctx) -> None:
     """relabel(A, p) = P^T A P with P[i, p(i)] = 1, so that new[p(u), p(v)] = A[u, v]."""
     repo = ctx.repo
